@@ -304,6 +304,7 @@ func runC18(c *Ctx, w *World, r *Report) {
 			r.Check(bad == "", "R-CURSOR", n, w.Pos(fn.Pos()), bad)
 		}
 	}
+	errPropNoTranslation["iohelper.(*SectionWriter).Write"], errPropNoTranslation["iohelper.(*SectionWriter).WriteAt"] = true, true
 	ReportErrProp(w, r, nil, "iohelper.(*SectionWriter).Write", "iohelper.(*SectionWriter).WriteAt")
 
 	// ---- R-SEEK
